@@ -11,6 +11,7 @@ import (
 	"go/token"
 	"go/types"
 	"os"
+	"strings"
 	"unsafe"
 
 	"golang.org/x/tools/go/ssa"
@@ -1168,6 +1169,12 @@ func callBuiltin(caller *frame, callpos token.Pos, fn *ssa.Builtin, args []value
 		n := int(asInt64(args[1]))
 		switch p := args[0].(type) {
 		case sliceData:
+			if caller != nil && caller.fn != nil && caller.fn.Pkg != nil && !isStdlibPath(caller.fn.Pkg.Pkg.Path()) {
+				// a string VIEW of the bytes, as in the real program: later
+				// writes to the slice show through (stdlib callers such as
+				// strings.Builder never write to what they handed out)
+				return symStr{p.s[:n:n]}
+			}
 			return mkStr(append([]value{}, p.s[:n]...))
 		case *value:
 			if n == 0 {
@@ -1599,4 +1606,12 @@ func fandbits[F floaty](x, y F) F {
 		*(*uint64)(unsafe.Pointer(&x)) &= *(*uint64)(unsafe.Pointer(&y))
 	}
 	return x
+}
+
+func isStdlibPath(p string) bool {
+	first := p
+	if k := strings.IndexByte(p, '/'); k >= 0 {
+		first = p[:k]
+	}
+	return !strings.Contains(first, ".")
 }
